@@ -68,7 +68,8 @@ fn cfg(flop: [u8; 3], ranges: Vec<Vec<(Combo, f32)>>) -> Config {
 }
 
 fn first_n(n: usize) -> Vec<(Combo, f32)> {
-    all_combos().into_iter().take(n).map(|c| (c, 1.0)).collect()
+    // mixed weights (pocket pairs 0.5, suited 0.25, offsuit 1) so that a weight taken from the wrong entry shows
+    all_combos().into_iter().take(n).map(|c| (c, if c.0 >> 2 == c.1 >> 2 { 0.5 } else if c.0 & 3 == c.1 & 3 { 0.25 } else { 1.0 })).collect()
 }
 fn last_n(n: usize) -> Vec<(Combo, f32)> {
     let a = all_combos();
@@ -421,6 +422,13 @@ fn adapters(rep: &mut Report) {
             cfgs.push(cfg(f, vec![subset_range(&a, m, 0, &DYADIC), subset_range(&a, 0b10011, 1, &DYADIC)]));
         }
     }
+    // an empty range beside others: every consuming method sees an empty enumeration
+    for f in [FLOPS8[3]] {
+        let a = alphabet(&f);
+        cfgs.push(cfg(f, vec![vec![]]));
+        cfgs.push(cfg(f, vec![subset_range(&a, 0b11, 0, &DYADIC), vec![]]));
+        cfgs.push(cfg(f, vec![vec![], subset_range(&a, 0b11, 1, &DYADIC)]));
+    }
     let outs = par_map(cfgs.len(), |i| {
         let c = cfgs[i].clone();
         let deck = deck_without(&c.flop);
@@ -494,7 +502,7 @@ fn adapters(rep: &mut Report) {
         }
     }
     rep.machine(sds.max(1), sds.max(1), n_cfg);
-    rep.sub("iterator-adapters", "36 configurations (ranges with and without flop cards): count(), last(), nth(k) for k around both ends (and count() of the rest), fold, size_hint before every next(), skip().step_by() must agree with the sequence repeated next() yields (which the other families compare with M-deals)", n_cfg * 12, n_cfg, false, json!({"showdowns_in_base_runs": sds}));
+    rep.sub("iterator-adapters", "39 configurations (ranges with and without flop cards, three with an empty range): count(), last(), nth(k) for k around both ends (and count() of the rest), fold, size_hint before every next(), skip().step_by() must agree with the sequence repeated next() yields (which the other families compare with M-deals)", n_cfg * 12, n_cfg, false, json!({"showdowns_in_base_runs": sds}));
 }
 
 pub fn replay(case: &Value) -> Value {
